@@ -926,3 +926,68 @@ def corpus_program(rng, repo):
   except SyntaxError:
     return None
   return rel, text
+
+
+# ---------------------------------------------------------------------------
+# a third source of programs: the snippets embedded in pytype's own functional
+# tests (self.Check("""...""") etc.), restricted to those that import nothing
+# beyond typing and the synthetic typeshed. Thousands of small programs written
+# by the maintainers to exercise one feature each (directives, overloads,
+# decorators, protocols, generics, control flow ...).
+
+_SNIPPETS = {}
+_SNIPPET_IMPORTS = {"typing", "os", "sys", "math", "string", "__future__"}
+
+
+def snippet_corpus(repo):
+  """[(test file, line, source)] - deterministic order."""
+  import ast
+  import os
+  import textwrap
+  if repo in _SNIPPETS:
+    return _SNIPPETS[repo]
+  out = []
+  root = os.path.join(repo, "pytype", "tests")
+  try:
+    files = sorted(os.listdir(root))
+  except OSError:
+    files = []
+  for fn in files:
+    if not (fn.startswith("test_") and fn.endswith(".py")):
+      continue
+    try:
+      with open(os.path.join(root, fn), encoding="utf8") as f:
+        tree = ast.parse(f.read())
+    except (OSError, SyntaxError):
+      continue
+    for node in ast.walk(tree):
+      if not (isinstance(node, ast.Call) and isinstance(node.func, ast.Attribute)
+              and node.func.attr in ("Check", "CheckWithErrors", "Infer",
+                                     "InferWithErrors", "assertNoCrash")):
+        continue
+      a = node.args[0] if node.args else None
+      if not (isinstance(a, ast.Constant) and isinstance(a.value, str)):
+        continue
+      src = textwrap.dedent(a.value).lstrip("\n")
+      try:
+        t = ast.parse(src)
+      except SyntaxError:
+        continue
+      mods = set()
+      for n in ast.walk(t):
+        if isinstance(n, ast.Import):
+          mods |= {x.name.split(".")[0] for x in n.names}
+        elif isinstance(n, ast.ImportFrom):
+          mods.add((n.module or "").split(".")[0])
+      if mods <= _SNIPPET_IMPORTS and 3 <= len(src.splitlines()) <= 60:
+        out.append((fn, node.lineno, src if src.endswith("\n") else src + "\n"))
+  _SNIPPETS[repo] = out
+  return out
+
+
+def snippet_program(rng, repo):
+  c = snippet_corpus(repo)
+  if not c:
+    return None
+  fn, line, src = c[rng.randrange(len(c))]
+  return "%s:%d" % (fn, line), src
